@@ -7,7 +7,10 @@ bad=0
 for s in $(seq "$1" "$2"); do
   for p in C01 C02 C03 C04 C05 C06 C07 C08 C09 C10 C11 C12 C13 C14 C15 C16 C17 C19 C20; do
     out=$(VERIF_SEED=$s ./bin/check $p $tier 2>&1); rc=$?
-    echo "seed=$s $p rc=$rc $(echo "$out" | grep -c '^VIOLATION') violations; $(echo "$out" | tail -1 | cut -c1-140)"
+    echo "seed=$s $p rc=$rc $(echo "$out" | grep -c '^VIOLATION') violations; $(echo "$out" | tail -1 | cut -c1-110)"
+    # violations of *other* properties seen under this profile are worth triaging too
+    other=$(echo "$out" | tail -1 | grep -o 'cut short by other properties: {.*}' | sed 's/"C05 ran-outside-cones-transient": [0-9]*,\? \?//')
+    case "$other" in *'{}'*|'') ;; *) echo "   OTHER seed=$s $p $other" ;; esac
     if [ $rc -ne 0 ] || echo "$out" | grep -q '^VIOLATION'; then bad=1; echo "$out" | grep -E '^VIOLATION|mismatch|error' | head -5; fi
   done
 done
